@@ -83,6 +83,15 @@ CHECKS = {
              "RETURNING, star selection, foreign-table flag). Held on the executions observed.",
         note="Hash collisions between unequal objects are legal and not flagged.",
         ref="DESIGN.md section 4 C17"),
+    "C14": dict(
+        technique="runtime differential: outcome of each call sequence vs an independent reference verdict (linear availability search with ==)",
+        text="Join programs over all source shapes (plain, aliased, schema, temporal, subquery, CTE, set operation; equal copies; "
+             "declared/undeclared CTEs; table-less fields) x operand forms x operand orders, set operations of every arity 1-4, "
+             "CASE without WHEN, every order of conflict-handler calls up to length 4, RETURNING term kinds x statement kinds and "
+             "every one-shot call are executed; the exception class (or its absence) at the named call must equal the reference "
+             "verdict in both directions. Held on the executions observed.",
+        note="The reference availability rule and conflict-handler model are written from the property statement, not from the code.",
+        ref="DESIGN.md section 4 C14"),
     "C15": dict(
         technique="runtime history monitor (C01) over objects duplicated by copy/deepcopy/pickle",
         text="Objects from call forests and fixed graphs (schema chains, NOT wrappers, CTEs, nested subqueries, set operations) "
